@@ -580,7 +580,7 @@ def run(ctx):
         #     caller-side objects leave the visible state unchanged (hold and compare).
         NOOPS = ("aget", "acreate", "aadd", "asub", "asetf", "areset", "open", "openas", "getcode", "rawget", "rawset",
                  "setcode", "ssnap", "csnap", "snap", "clear")
-        vis, frames, sfr, ahb, hist, codes = {}, [], [], [], [], {}
+        vis, frames, sfr, ahb, hist, codes, hvia, ahcode = {}, [], [], [], [], {}, [], {}
         committed, staged, sframes, hs, ctoks = {}, {}, [], [], []
         for si, op in enumerate(full):
             if si >= len(of) or of[si].get("p"):
@@ -661,6 +661,33 @@ def run(ctx):
                 break
             if k == "setcode":
                 codes[op[1]] = op[2]
+                if op[1] < len(hvia) and hvia[op[1]] is not None:
+                    ahcode[hvia[op[1]]] = op[2]
+            if k == "openas":
+                hvia.append(op[1])
+            elif k == "open":
+                hvia.append(None)
+            if k == "asetf" and op[2] == 2:
+                ahcode[op[1]] = op[3]
+            elif k == "areset":
+                ahcode.pop(op[1], None)
+            elif k in ("clear", "reopen", "reopenat", "apply"):
+                hvia, ahcode = [], {}
+            if k == "aput" and op[1] in ahcode:
+                # the code hash set through the handle (SetCodeHash, or SetCode on the contract state opened on it)
+                # is the one the account shows once the handle is put
+                ai, sec, pos, got_code = ahb[op[1]][0], of[si].get("a") or [], 0, None
+                for aj in range(len(UA)):
+                    if sec[pos] == 0:
+                        pos += 1
+                    else:
+                        if aj == ai:
+                            got_code = sec[pos + 3]
+                        pos += 6
+                if got_code != ahcode[op[1]]:
+                    pred_fail.append(("C12:code-lost", "the code hash written through an AccountState handle is not the one the account has after PutState",
+                                      {"ops": full[: si + 1], "account": UA[ai], "got": got_code, "expected": ahcode[op[1]]}))
+                    break
             elif k in ("clear", "reopen", "reopenat", "apply"):
                 codes = {}
             if k == "getcode" and op[1] in codes and (of[si].get("last") or [0])[1:] != [1, codes[op[1]]]:
